@@ -86,9 +86,18 @@ func init() {
 			}
 			ops = append(ops, Op{Op: "resume"})
 			// further submissions at settled points (one gated job in flight, everything else quiet)
-			extra := rapid.IntRange(0, 4).Draw(t, "extra")
+			// and queues bound while the rotation is under way
+			extra := rapid.IntRange(0, 5).Draw(t, "extra")
 			for i := 0; i < extra; i++ {
 				ops = append(ops, Op{Op: "settle"})
+				if rapid.IntRange(0, 3).Draw(t, "latebind") == 0 {
+					ops = append(ops, Op{Op: "bind", Kind: pick(t, "bindkind", allQKinds)})
+					nq++
+					if rapid.Bool().Draw(t, "populate") {
+						add(nq - 1)
+					}
+					continue
+				}
 				add(rapid.IntRange(0, nq-1).Draw(t, "xq"))
 			}
 			c.Clients = [][]Op{ops}
@@ -117,6 +126,9 @@ func init() {
 			}
 			for k := range kinds {
 				cl = append(cl, "has:"+k)
+			}
+			if len(ix.ByOp["bind"]) > 0 {
+				cl = append(cl, "queue-bound-mid-rotation")
 			}
 			return nonEmpty >= 2 && len(kinds) >= 2, cl
 		}})
@@ -175,7 +187,7 @@ func init() {
 				MaxCtrl: scale(th, 6, 12), GatedProb: 50, MaxBatch: 5, FinalStop: true}
 			return genProgram(t, "C18", pf, th)
 		},
-		Oracles: []oracleFn{oC18},
+		Oracles: []oracleFn{oC18, oC18Tune},
 		Foreign: []oracleFn{oCrash("*"), oDeadlock("C03"), oLivelock("C03")},
 		NonTrivial: func(ix *Index) (bool, []string) {
 			cl := classesOf(ix)
